@@ -164,6 +164,8 @@ func handleLSet(params internal.HandlerFuncParams) ([]byte, error) {
 		return nil, errors.New("index must be within list range")
 	}
 
+	// Modify a copy: the stored list must stay as it is if the write is refused.
+	list = slices.Clone(list)
 	list[index] = params.Command[3]
 	if err = params.SetValues(params.Context, map[string]interface{}{key: list}); err != nil {
 		return nil, err
